@@ -69,9 +69,61 @@ def roots(facts):
 
 
 def closure(facts):
+    """Bodies reachable from the encode/serialise roots.  Calls through a crate-local trait on a generic receiver
+    (`T::method` with `T: LpcFloat`) fan out to the impls of that method whose `Self` is a primitive / reference /
+    generic type, or an ADT that some body already in the closure mentions (rapid type analysis, to a fixpoint): an
+    impl that overrides a provided method in one feature set only is feature-dependent code on the encode path (seeded
+    C20-10), while the impls for weight types that only the gated estimators construct stay out.  Bodies of the `par`
+    module are the multi-thread mode, which C05's rules cover."""
     rs = roots(facts)
-    return [b for b in facts.closure_of_calls(rs, stop=lambda b: b.id in GATE_CALLEES, trait_fanout=False)
-            if b.id not in GATE_CALLEES]
+
+    def stop(b):
+        return b.id in GATE_CALLEES or b.module.startswith("par")
+
+    seen = {}
+    pending_impls = []      # (self_adt, [item ids]) waiting for their type to show up
+    mentioned = set()
+    dq = []
+
+    def add(b):
+        if b.id not in seen:
+            seen[b.id] = b
+            dq.append(b)
+
+    for r in rs:
+        add(r)
+    while True:
+        while dq:
+            b = dq.pop()
+            if stop(b):
+                continue
+            for l in b.locals:
+                mentioned.add(l["ty"])
+            for c in facts.callee_bodies(b, trait_fanout=False):
+                add(c)
+            for bi, t in b.calls():
+                fn = t.get("fn") or {}
+                if fn.get("res_kind") in ("unresolved", "virtual") and fn.get("trait") in facts.traits:
+                    for imp in facts.impls_of_trait(fn["trait"]):
+                        items = [it for it in imp["items"] if it.endswith("::" + fn["name"]) and it in facts.bodies]
+                        if not items:
+                            continue
+                        if imp.get("self_adt"):
+                            pending_impls.append((imp["self_adt"], items))
+                        else:
+                            for it in items:
+                                add(facts.bodies[it])
+        alltys = " ".join(mentioned)
+        progressed = False
+        for adt, items in pending_impls:
+            if re.search(r"(?<![\w:])%s(?![\w])" % re.escape(adt), alltys):
+                for it in items:
+                    if it not in seen:
+                        add(facts.bodies[it])
+                        progressed = True
+        if not progressed:
+            break
+    return [b for b in seen.values() if not stop(b)]
 
 
 def first_diff(a, b):
